@@ -543,6 +543,33 @@ func (c *Ctx) c02WriterImpl() {
 			}
 		}
 	}
+	// a failed (possibly partial) connection write is remembered: nothing is written to that connection afterwards
+	sticky := false
+	for _, b := range end.Blocks {
+		for _, in := range b.Instrs {
+			st, ok := in.(*ssa.Store)
+			if !ok {
+				continue
+			}
+			fr, ok := core.FieldOfAddr(st.Addr)
+			if !ok || !fr.Is(pkBuffer, "Writer", fr.Name) {
+				continue
+			}
+			// a field of the writer that receives the write's error / a flag on the write's failure edge, and is tested before the write
+			if anyDominates(nilEdges(resultOf(w, 1), false), b) {
+				for _, b2 := range end.Blocks {
+					for _, i2 := range b2.Instrs {
+						if u, ok := i2.(*ssa.UnOp); ok {
+							if f2, ok := core.FieldOfValue(u); ok && f2.Name == fr.Name && core.InstrDominates(u, w) {
+								sticky = true
+							}
+						}
+					}
+				}
+			}
+		}
+	}
+	R.Check(sticky, "C02.R4", "End:failed-write-is-final", c.at(w), "a failed or abandoned write never leaves partial bytes that corrupt the next message: after a connection write failed nothing more is written", "End records the failure in the writer and refuses to write again", "End forgets a failed connection write: after a short write (e.g. a write deadline) the next message - typically the ErrorResponse for that very error - is written behind the partial bytes and the client sees a corrupt stream")
 	R.Check(resetAll, "C02.R4", "End:reset-on-every-exit", c.atFn(end), "End empties the frame and clears the latch on every exit, also when the write failed", "a deferred (or dominating) Reset covers every return", "some return of End is not covered by a frame Reset")
 }
 
